@@ -248,6 +248,18 @@ def run(ctx):
             ctx.violation("oracle", {"call": which, "in_place": repr(no_), "stratified_randomizer": strat, "group": grp, "strata": [c_[0] for c_ in cov], "seed": sd,
                                      "issue": "an Experiment passed with in_place=False was modified (or the call failed)", "returned": str(r)[:200],
                                      "group_after": e.group.tolist()}, site="Experiment")
+    # one-sample data held in unsigned bytes / words: every array handed to the statistic is the data with some signs flipped (|value| kept)
+    from permute import core as _core
+    for _ in range(ctx.n(20, 200)):
+        n_ = ctx.rng.randint(2, 7); dtu = ctx.rng.choice([np.uint8, np.uint16, np.uint8]); xs = [ctx.rng.choice([200, 3, 17, 255, 0, 128, 1]) for _ in range(n_)]
+        seen_ = []
+        r = guarded(_core.one_sample, np.array(xs, dtype=dtu), None, reps=ctx.rng.randint(2, 8), stat=(lambda u, seen_=seen_: (seen_.append(np.array(u, dtype=float).copy()), float(np.sum(u)))[1]),
+                    alternative="greater", seed=ctx.rng.randint(0, 10**6))
+        ctx.case(("one_sample-unsigned", tuple(xs), np.dtype(dtu).name), True); ctx.count("one_sample-unsigned-data")
+        badu = r[0] != "ok" or any(len(a_) != n_ or any(abs(abs(float(a_[i])) - xs[i]) > 0 for i in range(n_)) for a_ in seen_)
+        if badu:
+            ctx.violation("oracle", {"call": "one_sample", "x": xs, "dtype": np.dtype(dtu).name, "issue": "the statistic received an array that is not the data with some signs flipped",
+                                     "received": [a_.tolist() for a_ in seen_[:4]], "returned": str(r[1:])[:120] if r[0] != "ok" else None}, site="one_sample")
     # permute_incidence_fixed_sums must not touch the caller's matrix, whatever its dtype / memory layout
     for _ in range(ctx.n(60, 800)):
         a, b = ctx.rng.randint(2, 5), ctx.rng.randint(2, 5)
